@@ -72,36 +72,31 @@ def sw(s):
 
 
 def val_wire(v):
-    """value -> wire (see Driver/Wsgi.lean: convOfJson)"""
+    """value -> wire (see Driver/Wsgi.lean: convOfJson).  Non-strings carry their str() text, which is what
+    format() shows since upstream commit 6b1a6e2 (`html.escape(str(conversion))`)."""
     if isinstance(v, str):
         return sw(v)
     if v is None:
         return None
     if isinstance(v, bool):
-        return v                      # -> other
-    if isinstance(v, int):
         return v
+    if isinstance(v, int):
+        return v                                  # the model computes str(int) itself (Py.strOfInt)
     if isinstance(v, decimal.Decimal):
-        return {'dec': sw(str(v))}    # -> nojson
-    if isinstance(v, dict):
-        return {'d': [[sw(str(k)), val_wire(x)] for k, x in v.items()]}
-    if isinstance(v, tuple):
-        return {'t': [val_wire(x) for x in v]}
-    if isinstance(v, list):
-        return [val_wire(x) for x in v]
-    if isinstance(v, float):
-        return {'float': repr(v)}
+        return {'dec': sw(str(v))}                # not JSON-serialisable
+    if isinstance(v, (dict, tuple, list, float)):
+        return {'o': sw(str(v))}                  # JSON-serialisable object
     raise TypeError(v)
 
 
 def conv_class(v):
-    """the model's view of a Python value"""
+    """the model's view of a Python value (JSON half: other objects are not compared by content)"""
     if isinstance(v, str):
         return ('str', v)
     if v is None:
         return ('none',)
     if isinstance(v, bool):
-        return ('other',)
+        return ('bool', v)
     if isinstance(v, int):
         return ('int', v)
     if isinstance(v, decimal.Decimal):
@@ -113,7 +108,7 @@ def conv_from_model(j):
     if j is None:
         return ('none',)
     if isinstance(j, bool):
-        return ('other',)
+        return ('bool', j)
     if isinstance(j, int):
         return ('int', j)
     if isinstance(j, dict) and 's' in j:
@@ -271,13 +266,14 @@ class ModGen:
         if k == 9:
             return number                     # filtered by `conversion != number`
         if k == 10:
-            return r.choice([0, 7, 1985, -3, 10 ** 20])
+            return r.choice([0, 7, 1985, -3, 10 ** 20, -10 ** 40, r.randrange(-10 ** 6, 10 ** 6), r.randrange(10 ** 30)])
         if k == 11:
             return None
         if k == 12:
-            return r.choice([{'county': 'x', 'province': '<y>'}, {}, ('a', 'b'), ['l'], True, 1.5])
+            return r.choice([{'county': 'x', 'province': '<y>'}, {}, ('a', 'b'), ['l'], True, False, 1.5, ('<&>', 1), (),
+                             {'k': self.s.text(surrogates=not encodable, maxlen=6)}, [self.s.text(surrogates=not encodable, maxlen=6), None]])
         if k == 13:
-            return decimal.Decimal('1.50')
+            return r.choice([decimal.Decimal('1.50'), decimal.Decimal('-0E-7'), decimal.Decimal('NaN')])
         if k == 14:
             return r.choice([datetime.date(1985, 7, 30), datetime.date(2000, 2, 29), datetime.datetime(1999, 12, 31, 23, 59)])
         if k == 15:
@@ -285,7 +281,8 @@ class ModGen:
         return self.s.text(surrogates=False, maxlen=8)
 
     def module(self, idx, number, profile):
-        """profile 'good': satisfies assumption A; 'wild': anything"""
+        """profile 'good': satisfies assumptions A and NoNojson of Props/C18.lean (is_valid total, compact/format
+        strings, encodable text, conversions of any JSON-serialisable kind); 'wild': anything"""
         r = self.r
         good = profile == 'good'
         modname = 'zz.m%d%s' % (idx, r.choice(['', '_x', '.sub']))
@@ -329,8 +326,8 @@ class ModGen:
             prop = r.choice(['birth_date', 'birth_year', 'gender', 'isbn13', 'x', 'bic', 'birth_place', 'a_b_c'])
             fname = prefix + prop
             if good:
-                o = self.value(number, True)
-                while not isinstance(o, (str, Raise, datetime.date)):
+                o = self.value(number, True)     # any kind of value: the page shows str(value)
+                while isinstance(o, decimal.Decimal):   # ... but json.dumps rejects Decimal
                     o = self.value(number, True)
             else:
                 o = self.value(number, False)
@@ -480,7 +477,8 @@ class Gen:
         except Exception as e:   # noqa: B902
             py = 'err ' + exc_name(e)
         args = [val_wire(number), sw(name), sw(processed), [[sw(k), val_wire(v)] for k, v in convs.items()]]
-        self.add('format_entry', label + (' / non-str' if py.startswith('err') else ''), 'wsgi.format_entry', args,
+        nonstr = any(not isinstance(v, str) for v in convs.values())
+        self.add('format_entry', label + (' / non-str conversion' if nonstr else '') + (' / error' if py.startswith('err') else ''), 'wsgi.format_entry', args,
                  lambda got: None if got == py else 'python ' + py[:300])
 
     # -- get_conversions
